@@ -327,6 +327,7 @@ func verifServe(s *Server, in []byte, final error) (*vconn, *Conn, error) {
 	vc := &vconn{in: in, final: final}
 	c := newConn(vc, s)
 	err := s.handleConn(c)
+	verifSettle()
 	return vc, c, err
 }
 
